@@ -155,7 +155,8 @@ func (w *Worker) genC13(rc *simapi.RunConfig) {
 	}
 	// selection: the package's own checker plus a few others; every fifth run all of them
 	wl := &Workload{Params: map[string]map[string]any{}}
-	if rc.Index%5 == 4 {
+	if rc.Index%5 == 4 || w.infoBy[p] == nil {
+		// packages that are not one checker's examples are there for all of them
 		wl.EnableAll = true
 	} else {
 		set := map[string]bool{}
@@ -719,33 +720,69 @@ func (w *Worker) runC13Source(rc *simapi.RunConfig) *simapi.RunResult {
 	}
 	lineText := regexp.MustCompile(`\blines? \d+`)
 	ndiag := 0
-	for _, c := range names {
-		var a, b []string
-		for _, d := range got[c] {
-			if d.Line-1 < len(origin) && origin[d.Line-1] == 0 {
-				continue // located in padding
+	compare := func(base, got map[string][]Diag, history string) {
+		for _, c := range names {
+			var a, b []string
+			for _, d := range got[c] {
+				if d.Line-1 < len(origin) && origin[d.Line-1] == 0 {
+					continue // located in padding
+				}
+				a = append(a, fmt.Sprintf("%d:%d: %s [fix=%v %q]", d.Line, d.Col, d.Text, d.HasFix, d.FixText))
 			}
-			a = append(a, fmt.Sprintf("%d:%d: %s [fix=%v %q]", d.Line, d.Col, d.Text, d.HasFix, d.FixText))
-		}
-		skipChecker := false
-		for _, d := range base[c] {
-			if lineText.MatchString(d.Text) {
-				skipChecker = true // the message itself quotes line numbers
+			skipChecker := false
+			for _, d := range base[c] {
+				if lineText.MatchString(d.Text) {
+					skipChecker = true // the message itself quotes line numbers
+				}
+				b = append(b, fmt.Sprintf("%d:%d: %s [fix=%v %q]", newLineOf[d.Line], d.Col, d.Text, d.HasFix, d.FixText))
 			}
-			b = append(b, fmt.Sprintf("%d:%d: %s [fix=%v %q]", newLineOf[d.Line], d.Col, d.Text, d.HasFix, d.FixText))
+			if skipChecker {
+				res.Stats["checkers_quoting_line_numbers_skipped"]++
+				continue
+			}
+			ndiag += len(b)
+			sort.Strings(a)
+			sort.Strings(b)
+			oa, ob := multisetDiff(a, b)
+			if len(oa)+len(ob) > 0 {
+				res.Violations = append(res.Violations, simapi.Violation{Class: "depends-on-unrelated-code", Identity: "depends-on-unrelated-code:" + c,
+					Detail: fmt.Sprintf("%s on %s/%s%s after %s: only transformed [%s]; only original (line-shifted) [%s]",
+						c, pkg, cp.FileNames[ex.File], history, describeTransform(perm, ex), joinShort(oa, 3), joinShort(ob, 3))})
+			}
 		}
-		if skipChecker {
-			res.Stats["checkers_quoting_line_numbers_skipped"]++
-			continue
+	}
+	compare(base, got, "")
+	// The same file as the LAST one the same checker instances analyse: up to two other
+	// files of the package (the ones before it, cyclically) go first, untouched, in both
+	// the original and the transformed package. What a checker keeps from an earlier
+	// file - a table indexed by line, a scratch set - then meets the shifted positions.
+	if nf := len(cp.FileNames); nf > 1 && len(res.Violations) == 0 {
+		var idx []int
+		for k := 2; k >= 1; k-- {
+			if j := ((ex.File-k)%nf + nf) % nf; j != ex.File && (len(idx) == 0 || idx[len(idx)-1] != j) {
+				idx = append(idx, j)
+			}
 		}
-		ndiag += len(b)
-		sort.Strings(a)
-		sort.Strings(b)
-		oa, ob := multisetDiff(a, b)
-		if len(oa)+len(ob) > 0 {
-			res.Violations = append(res.Violations, simapi.Violation{Class: "depends-on-unrelated-code", Identity: "depends-on-unrelated-code:" + c,
-				Detail: fmt.Sprintf("%s on %s/%s after %s: only transformed [%s]; only original (line-shifted) [%s]",
-					c, pkg, cp.FileNames[ex.File], describeTransform(perm, ex), joinShort(oa, 3), joinShort(ob, 3))})
+		idx = append(idx, ex.File)
+		var fn []string
+		var f0, f1 []*ast.File
+		for _, j := range idx {
+			fn = append(fn, cp.FileNames[j])
+			f0 = append(f0, cp.Files[j])
+			f1 = append(f1, files[j])
+		}
+		wb, e1 := w.runFreshPkg(names, w.corpus.Fset, w.corpus.Sizes, cp.Pkg.TypesInfo, cp.Pkg.Types, pkg, fn, f0)
+		wg, e2 := w.runFreshPkg(names, fset, w.corpus.Sizes, info, tpkg, pkg, fn, f1)
+		switch {
+		case e1 != "":
+			res.Notes = append(res.Notes, "untransformed run after other files fails (not judged): "+e1)
+		case e2 != "":
+			res.Violations = append(res.Violations, simapi.Violation{Class: "panic-after-transform", Identity: "panic-after-transform:" + pkg,
+				Detail: fmt.Sprintf("%s/%s analysed after %v, after %s: %s", pkg, cp.FileNames[ex.File], fn[:len(fn)-1], describeTransform(perm, ex), e2)})
+		default:
+			compare(onlyFile(wb, cp.FileNames[ex.File]), onlyFile(wg, cp.FileNames[ex.File]), fmt.Sprintf(" (analysed after %v by the same checker instances)", fn[:len(fn)-1]))
+			res.Stats["after_other_files_pairs"]++
+			res.Probes["c13_after_other_files"]++
 		}
 	}
 	// expectations travel with their chunk
